@@ -7,6 +7,7 @@ require (
 	github.com/gkampitakis/go-snaps v0.0.0
 	github.com/goccy/go-yaml v1.15.13
 	github.com/kr/pretty v0.3.1
+	github.com/maruel/natural v1.1.1
 	github.com/tidwall/pretty v1.2.1
 )
 
@@ -14,7 +15,6 @@ require (
 	github.com/gkampitakis/ciinfo v0.3.1 // indirect
 	github.com/gkampitakis/go-diff v1.3.2 // indirect
 	github.com/kr/text v0.2.0 // indirect
-	github.com/maruel/natural v1.1.1 // indirect
 	github.com/rogpeppe/go-internal v1.13.1 // indirect
 	github.com/tidwall/gjson v1.18.0 // indirect
 	github.com/tidwall/match v1.1.1 // indirect
